@@ -91,3 +91,21 @@ pub async fn collect(resp: routinator::http::verif::Response) -> HttpResp {
     let body = resp.into_body().collect().await.unwrap().to_bytes().to_vec();
     HttpResp { status, etag, last_modified, body }
 }
+
+impl Env {
+    /// Like `get`, but returns the body as the sequence of data frames (chunks) the response stream produced.
+    pub fn get_chunks(&self, path_and_query: &str) -> (u16, Vec<Vec<u8>>) {
+        let http = self.http.clone();
+        let req = Self::request(path_and_query, &[], false);
+        self.rt.block_on(async move {
+            let resp = http.handle_request(req).await.into_hyper().unwrap();
+            let status = resp.status().as_u16();
+            let mut body = resp.into_body();
+            let mut chunks = Vec::new();
+            while let Some(frame) = body.frame().await {
+                if let Ok(data) = frame.unwrap().into_data() { chunks.push(data.to_vec()); }
+            }
+            (status, chunks)
+        })
+    }
+}
